@@ -423,6 +423,60 @@ func C12(rep *ev.Reporter, tier string) {
 				}
 			}
 		}
+		// (7) a loaded knowledge base is built upon: one more resource sharing sub-expressions with the
+		// loaded rules, and a library removal, must behave as on the original library
+		{
+			id := "c12/" + k.name + "/build-on-loaded"
+			if rep.ReplayFilter == "" || rep.ReplayFilter == id {
+				extra := `rule ExtraOnLoaded salience 66 { when F.I2 == 0 && F.B then F.I2 = F.I2 + 1; F.S = F.S + "onloaded"; }`
+				on := func(loadFirst bool, op string) (string, error) {
+					l := ast.NewKnowledgeLibrary()
+					if err := builder.NewRuleBuilder(l).BuildRuleFromResource("KB", "1", pkg.NewBytesResource([]byte(k.text))); err != nil {
+						return "", err
+					}
+					if loadFirst {
+						var buf bytes.Buffer
+						if err := l.StoreKnowledgeBaseToWriter(&buf, "KB", "1"); err != nil {
+							return "", err
+						}
+						l = ast.NewKnowledgeLibrary()
+						if _, err := l.LoadKnowledgeBaseFromReader(bytes.NewReader(buf.Bytes()), true); err != nil {
+							return "", err
+						}
+					}
+					switch op {
+					case "add":
+						if err := builder.NewRuleBuilder(l).BuildRuleFromResource("KB", "1", pkg.NewBytesResource([]byte(extra))); err != nil {
+							return "", err
+						}
+					case "remove":
+						var first string
+						for n := range l.GetKnowledgeBase("KB", "1").RuleEntries {
+							if first == "" || n < first {
+								first = n
+							}
+						}
+						l.RemoveRuleEntry(first, "KB", "1")
+					case "add-duplicate":
+						_ = builder.NewRuleBuilder(l).BuildRuleFromResource("KB", "1", pkg.NewBytesResource([]byte(k.text)))
+					}
+					bh, err := c12Behaviour(l, nil, "KB", "1", orders)
+					return bh, err
+				}
+				for _, op := range []string{"add", "remove", "add-duplicate"} {
+					a, errA := on(true, op)
+					b, errB := on(false, op)
+					atomic.AddInt64(&loads, 1)
+					if errA != nil || errB != nil {
+						if (errA == nil) != (errB == nil) {
+							report("C12:loaded-knowledge-base-cannot-be-built-upon:"+op, fmt.Sprintf("%s: on the loaded knowledge base: %v; on the original: %v", k.name, errA, errB), id, nil)
+						}
+					} else if a != b {
+						report("C12:loaded-knowledge-base-differs-when-built-upon:"+op, fmt.Sprintf("%s: after '%s' the loaded knowledge base behaves\n%sthe original\n%s", k.name, op, a, b), id, nil)
+					}
+				}
+			}
+		}
 		if ki < 3 {
 			rep.Sample(map[string]interface{}{"knowledge_base": k.name, "grl": k.text, "stream_bytes": len(stream), "write_calls": nCalls, "prefix_offsets_tried": len(offsets)})
 		}
@@ -438,6 +492,6 @@ func C12(rep *ev.Reporter, tier string) {
 		rep.Exhaustive = false
 		rep.Coverage["caps_hit"] = "time budget"
 	}
-	rep.Coverage["rule"] = "corpus: a kitchen-sink knowledge base covering every node kind and meta field (15 operators, both negation kinds, every constant kind incl. nil, method chains, selectors, all five assignment forms, negative salience, unicode description) + 7 small knowledge bases (thorough: + programs of the C01 families, up to 60). For each: store; load through a plain, a one-byte-at-a-time and a data+EOF reader; store(load) and load again (3 generations); EVERY truncation offset of the stream (quick, kitchen-sink only: every field boundary +-1 as recorded by a tracing writer), every 16th also through the one-byte reader; a writer failing at EVERY write-call index with and without a partial write; overwrite=false onto an existing entry; store, change the knowledge base (library removal / one more resource), store again, load. Oracle: equal name/version/rule names/descriptions/saliences and equal listener traces, results and final facts of instances (2 rule orders + FetchMatchingRules); a truncated stream must give an error or an equivalent knowledge base; a failing writer must give an error. Non-trivial: every truncation/fault point and every complete load compared behaviourally."
+	rep.Coverage["rule"] = "corpus: a kitchen-sink knowledge base covering every node kind and meta field (15 operators, both negation kinds, every constant kind incl. nil, method chains, selectors, all five assignment forms, negative salience, unicode description) + 7 small knowledge bases (thorough: + programs of the C01 families, up to 60). For each: store; load through a plain, a one-byte-at-a-time and a data+EOF reader; store(load) and load again (3 generations); EVERY truncation offset of the stream (quick, kitchen-sink only: every field boundary +-1 as recorded by a tracing writer), every 16th also through the one-byte reader; a writer failing at EVERY write-call index with and without a partial write; overwrite=false onto an existing entry; store, change the knowledge base (library removal / one more resource), store again, load; build one more resource / remove a rule / re-build a duplicate ON the loaded knowledge base. Oracle: equal name/version/rule names/descriptions/saliences and equal listener traces, results and final facts of instances (2 rule orders + FetchMatchingRules); a truncated stream must give an error or an equivalent knowledge base; a failing writer must give an error. Non-trivial: every truncation/fault point and every complete load compared behaviourally."
 	_ = facts.New
 }
